@@ -314,8 +314,8 @@ def zone_of(dt, warned, dflt_tz=None):
     from dateutil import tz
     ti = dt.tzinfo
     if dflt_tz is not None and ti is dflt_tz:
-        # no zone was applied to the result: it still carries the tzinfo OBJECT of an aware `default=` (the model's `.naive`
-        # / `.naiveWarn` descriptors mean exactly "default.replace(...) as it is")
+        # no zone was applied to the result: it still carries the tzinfo OBJECT of an aware `default=` (the model's
+        # `FinalTz.ofDefault`); with a warning (`warn … dflt`) that is the repaired defect D-C15-aware-default-kept
         return ("warn " + cps(warned) + " dflt") if warned is not None else "dflt"
     if ti is None:
         if warned is not None:
@@ -390,15 +390,15 @@ def model_answers(ctx, calls):
     """model's canonical answers for calls made under the CURRENT process TZ (two driver phases)"""
     from dateutil import tz
     first = ctx.driver([request(c) for c in calls])
-    # an aware `default=`: where the model applies no zone (`.naive` / `.naiveWarn`) the result keeps the default's tzinfo
+    # the model (parseA / finalTz) says `dflt` where parse() leaves the tzinfo of `default=` untouched (row 5 of _build_tzaware:
+    # no zone information in the text) and `naive` / `warn` where it is None whatever the default carries (ignoretz, unknown
+    # abbreviation, a tzinfos entry None); for a NAIVE default `dflt` is naive
     for i, (c, r) in enumerate(zip(calls, first)):
-        if getattr(c.default, "tzinfo", None) is not None and r.startswith("ok "):
+        if r.startswith("ok "):
             parts = r.split(" | ")
-            if parts[1] == "naive":
-                parts[1] = "dflt"
-            elif parts[1].startswith("warn "):
-                parts[1] += " dflt"
-            first[i] = " | ".join(parts)
+            if parts[1] == "dflt" and getattr(c.default, "tzinfo", None) is None:
+                parts[1] = "naive"
+                first[i] = " | ".join(parts)
     out = list(first)
     second, where = [], []
     for i, (c, r) in enumerate(zip(calls, first)):
@@ -413,17 +413,18 @@ def model_answers(ctx, calls):
             out[i] = "bad-model-datetime " + r
             continue
         if kind == "local":
-            name = rest
+            name, tzoff = rest.split(" ")           # the parsed name and res.tzoffset (`-` = None)
             z = tz.tzlocal()
             try:
-                n0 = naive.replace(tzinfo=z).tzname()
-                n1 = naive.replace(tzinfo=z, fold=1).tzname()
+                a0, a1 = naive.replace(tzinfo=z), naive.replace(tzinfo=z, fold=1)
+                n0, n1 = a0.tzname(), a1.tzname()
+                o0, o1 = _secs(a0.utcoffset()), _secs(a1.utcoffset())
             except OverflowError:
                 # tzlocal.tzname() itself overflows next to 0001-01-01 / 9999-12-31 (`dt - dst_saved`): the zone
                 # object is outside the model, its exception propagates through `_assign_tzname` unchanged
                 out[i] = "err OverflowError"
                 continue
-            second.append("parser.localfinal %s %s %s" % (optname(n0), optname(n1), name))
+            second.append("parser.localfinal %s %s %s %s %s %s" % (optname(n0), optname(n1), o0, o1, name, tzoff))
             where.append((i, head, "local", naive, toks))
         else:
             data, name = rest.split(" ")
@@ -761,6 +762,8 @@ CALLEES = [
     ("tz/_common.py", "tzrangebase", "_naive_isdst", "PM.strIsdst (the `d` test)"),
     ("tz/tz.py", "tzlocal", "__init__", "environment: -time.timezone / -time.altzone (fed as the names / offsets a tzlocal() built now reports)"),
     ("tz/tz.py", "tzlocal", "tzname", "environment: n0 / n1 of parser.localfinal"),
+    ("tz/tz.py", "tzlocal", "utcoffset", "environment: o0 / o1 of parser.localfinal (`aware.utcoffset() != timedelta(0)` of the repaired local row; "
+                                         "same _isdst call as tzname(), which ran before it in _assign_tzname)"),
     ("tz/tz.py", "tzlocal", "_isdst", "environment (OverflowError next to 0001-01-01 / 9999-12-31 propagates unchanged)"),
     ("tz/tz.py", "tzlocal", "_naive_is_dst", "environment"),
     ("tz/tz.py", "tzlocal", "is_ambiguous", "environment"),
